@@ -463,6 +463,15 @@ Theorem C13_typed_eq_same_mapping : forall a b, twf a = true -> twf b = true -> 
 Proof. exact typed_eq_same_mapping. Qed.
 Print Assumptions C13_typed_eq_same_mapping.
 
+Example C13_eq_same_mapping_nontrivial :
+  let a := SMapped (SDict [(0%N, 1#1); (1%N, 2#1)] [0%N]) [(2%N, EAdd (EVar 0%N) (EVar 1%N)); (3%N, EConst (4#2))] in
+  let b := SMapped (SDict [(1%N, 4#2); (0%N, 1#1)] [0%N; 0%N]) [(3%N, EConst (2#1)); (2%N, EAdd (EVar 0%N) (EVar 1%N))] in
+  let c := SMapped (SDict [(1%N, 2#1); (0%N, 5#1)] [0%N]) [(3%N, EConst (2#1)); (2%N, EAdd (EVar 0%N) (EVar 1%N))] in
+  a <> b /\ wf_scope a = true /\ wf_scope b = true /\ scope_eqb a b = true /\ scope_eqb a c = false /\
+  denote_scope a = Ok [(0%N, 1#1); (1%N, 2#1); (2%N, 3#1); (3%N, 4#2)] /\
+  denote_scope b = Ok [(1%N, 4#2); (0%N, 1#1); (3%N, 2#1); (2%N, 6#2)].
+Proof. exact eq_same_mapping_example. Qed.
+
 (* non-vacuity of C13_unreported_is_constant *)
 Example C13_unreported_satisfiable :
   let s := SMapped (SRange (SDict [(0%N, 1#1); (1%N, 2#1)] [0%N]) 0%N (4#1)) [(2%N, EAdd (EVar 0%N) (EVar 1%N))] in
